@@ -619,6 +619,41 @@ Example C10_rename_example :
   pav (renap rev10 [([1; 2]%positive, 1%Q)]) 2 = AR_ok [Cand 9; Cand 10]%positive.
 Proof. vm_compute. repeat split; reflexivity. Qed.
 
+(* ---- wave 6: allocated score after fixes/C12-allocated-score-exhausted (Model/AllocScore.v, the _x definitions).
+   The known class C10-allocated-score used to be "a crash under one presentation, an answer under another": the repaired
+   loop has NO error outcome, under any iteration order of the tied sets (the only place where names / hash seed / ballot
+   order reach the count) - so that class is empty. *)
+From VL Require Model.AllocScore Proofs.AllocScore_proofs Proofs.AllocRepair_proofs.
+Theorem C10_allocated_score_crash_free : forall ra qs orders orders' (votes : AllocScore.wprofile) n,
+  AllocScore.ra_exhausted ra = true -> AllocScore_proofs.wpos votes ->
+  (0 < AllocScore.ac_quota (AllocScore.alloc_cfg qs orders votes n [] (map (fun c => (c, 1%Z)) (AllocScore.all_scored votes))))%Q ->
+  (AllocScore.quota_divides_by_seats qs && Nat.eqb n 0)%bool = false ->
+  (exists r, AllocScore.alloc_select_x ra qs orders votes n = inl r) /\
+  (exists r', AllocScore.alloc_select_x ra qs orders' votes n = inl r').
+Proof.
+  intros ra qs orders orders' votes n Hra Hp Hq Hz. split.
+  - exact (AllocRepair_proofs.alloc_select_x_answers ra Hra qs orders votes n Hp Hq Hz).
+  - exact (AllocRepair_proofs.alloc_select_x_answers ra Hra qs orders' votes n Hp Hq Hz).
+Qed.
+
+(* what stays open (known finding C10-allocated-score, narrowed): a round that seats several level leaders spends their
+   quotas one after the other in the iteration order of the tie, so the LATER rounds can depend on it.
+   {C:1} x 2, {A:0,B:1,D:1} x 2, {A:0,B:2,C:2} x 1, three seats, Droop: B and C share the lead; the two orders of seating
+   them end with D plainly elected, or with the tie {A, D}.  The choice between level leaders needs a tie-breaking policy
+   (maintainers' decision, as for C12-allocated-score-tie-second). *)
+Theorem C10_allocated_score_tie_order_refuted : exists (votes : AllocScore.wprofile) r r',
+  AllocScore.alloc_select_x AllocScore.arepaired (Quota.QNamed 3) [[2; 3]%positive] votes 3 = inl r /\
+  AllocScore.alloc_select_x AllocScore.arepaired (Quota.QNamed 3) [[3; 2]%positive] votes 3 = inl r' /\
+  In (Cand 4%positive) r /\ ~ In (Cand 4%positive) r'.
+Proof.
+  pose (b := fun (l : list (positive * Z)) => map (fun cs : positive * Z => (fst cs, inject_Z (snd cs))) l).
+  exists [(b [(3%positive, 1%Z)], 2%Q); (b [(1%positive, 0%Z); (2%positive, 1%Z); (4%positive, 1%Z)], 2%Q);
+          (b [(1%positive, 0%Z); (2%positive, 2%Z); (3%positive, 2%Z)], 1%Q)].
+  eexists. eexists. split; [vm_compute; reflexivity|]. split; [vm_compute; reflexivity|]. split.
+  - cbn. tauto.
+  - cbn. intros [H|[H|[H|[]]]]; discriminate H.
+Qed.
+
 Print Assumptions C10_count_characterisation.
 Print Assumptions C10_order.
 Print Assumptions C10_symmetric.
@@ -687,3 +722,5 @@ Print Assumptions C10_score_to_simple_order.
 Print Assumptions C10_score_voting_order.
 Print Assumptions C10_score_to_simple_order_values.
 Print Assumptions C10_majority_judgment_order.
+Print Assumptions C10_allocated_score_crash_free.
+Print Assumptions C10_allocated_score_tie_order_refuted.
